@@ -1856,7 +1856,7 @@ class DynamicSeedingInstrumentation(transformer.DynamicSeedingInstrumentationAda
                 code_object_id,
                 node,
                 maybe_compare,
-                maybe_compare_index,
+                node.get_instruction_position(maybe_compare_index),  # type: ignore[arg-type]
             )
             return
 
@@ -1874,7 +1874,7 @@ class DynamicSeedingInstrumentation(transformer.DynamicSeedingInstrumentationAda
                 code_object_id,
                 node,
                 maybe_string_func,
-                maybe_string_func_index,
+                node.get_instruction_position(maybe_string_func_index),  # type: ignore[arg-type]
             )
             return
 
@@ -1893,7 +1893,7 @@ class DynamicSeedingInstrumentation(transformer.DynamicSeedingInstrumentationAda
                         code_object_id,
                         node,
                         maybe_string_func_with_arg,
-                        maybe_string_func_with_arg_index,
+                        node.get_instruction_position(maybe_string_func_with_arg_index),  # type: ignore[arg-type]
                     )
                 case "endswith":
                     self.visit_endswith_function(
@@ -1902,7 +1902,7 @@ class DynamicSeedingInstrumentation(transformer.DynamicSeedingInstrumentationAda
                         code_object_id,
                         node,
                         maybe_string_func_with_arg,
-                        maybe_string_func_with_arg_index,
+                        node.get_instruction_position(maybe_string_func_with_arg_index),  # type: ignore[arg-type]
                     )
 
     def visit_compare_op(  # noqa: D102, PLR0917
